@@ -545,12 +545,12 @@ def main(run):
     dynamic_stream(run, work, [p for n, p in cp if wasm_ok(p) and (thorough or not n.startswith("paths-") or n in ("paths-array-get", "paths-array-set", "paths-str-long", "paths-oob-ref", "paths-oob-lmut", "paths-oob-fref"))], "wasm", "cw")
     flow_probes(run, work)
     # 2. static tracker at volume (type-check only, in-process)
-    static_stream(run, work, 4000 if thorough else 400)
+    static_stream(run, work, 4000 if thorough else 300)
     # 3. generated histories, compiled and run
     g = Gen(run.rng, ITY)
-    dynamic_stream(run, work, [g.prog() for _ in range(1300 if thorough else 60)], "native", "gn")
+    dynamic_stream(run, work, [g.prog() for _ in range(1300 if thorough else 50)], "native", "gn")
     gw = Gen(run.rng, WASM_TY)
-    dynamic_stream(run, work, [gw.prog() for _ in range(500 if thorough else 10)], "wasm", "gw")
+    dynamic_stream(run, work, [gw.prog() for _ in range(500 if thorough else 8)], "wasm", "gw")
 
 def replay(run, path):
     r = json.load(open(path))
